@@ -244,5 +244,29 @@ ADDED6 = {
 }
 for _k, _v in ADDED6.items():
     CLAIMS[_k]['text'] = CLAIMS[_k]['text'] + _v
+# rules added in the last session (round 5 of the adversarial changes and two changes that had been listed as not caught; DESIGN.md section 9.2 "Round 5")
+ADDED7 = {
+    'C03': ' Round 5: CODEC-KEPT (GetCodec discards the codec it was handed only on paths that store a newly created one: the receive codec survives un-deflated frames inside a zlib stream).',
+    'C04': ' Round 5: COUNT-DECIDES (a session\'s entry leaves a node\'s subscriber table only under a test of the count that would otherwise be stored).',
+    'C06': ' Round 5: UNSUBSCRIBE-PAIR (every successful _subscriptions.RemovePathString is followed on every path by the -1 marks traversal for the same path) and MARKS-ALWAYS (the notify-on-set-parent argument of PutChild/InsertOrderedChild is never conditional or NULL).',
+    'C08': ' Last session: RECV-EXACT (Python transceiver: a recv() feeding an accumulator tested by len(acc) == want asks for want - len(acc)).',
+    'C11': ' Last session: NFDS-COVERS (the bound handed to select() is a running maximum over all descriptor sets), TIMEOUT-TOLERATED (the stock internal-thread loop gives up after a failed wait only where the status was found different from B_TIMED_OUT), CLEAR-FIRST (ICallbackMechanism::DispatchCallbacks clears its pending flag before it collects the work).',
+    'C12': ' Round 5: ID-PER-BUFFER (every finished send buffer moves the message ID on).',
+    'C19': ' Round 5: UNREGISTER-ATOMIC reads the decisions of || chains in join blocks (engine correction) and derives operand facts from them.',
+    'C20': ' Round 5: DETACH-FIRST (the old parent detaches a child before its _parent is overwritten) and REQUEST-VERBATIM (_myScheduledTime is assigned from GetPulseTime() or a constant, never from the sweep time).',
+}
+for _k, _v in ADDED7.items():
+    CLAIMS[_k]['text'] = CLAIMS[_k]['text'] + _v
+_TECH7 = {
+    'C03': '; must-follow of a new-codec store after every discard of the codec out-parameter',
+    'C04': '; guard-reads-the-stored-value rule at the entry removal',
+    'C06': '; must-follow pairing of unsubscribe and marks traversal; argument-shape rule on the attach calls',
+    'C08': '; Python-ast rule on accumulating recv() sites',
+    'C11': '; reduction-shape rule on the select() bound; loop-exit edge atoms (status compared with B_TIMED_OUT); must-precede of the flag reset before the dispatch call',
+    'C12': '; must-follow / same-block pairing of buffer completion and ID increment',
+    'C20': '; must-precede of the detach call before the parent-field write; value-origin rule on the scheduled-time member',
+}
+for _k, _v in _TECH7.items():
+    CLAIMS[_k]['technique'] = CLAIMS[_k]['technique'] + _v
 for _k in CLAIMS:
     CLAIMS[_k]['text'] = CLAIMS[_k]['text'] + ' Robustness: every condition is read independently of its spelling; the thorough tier re-runs the rules on the facts with all comparisons exchanged and all negations respelled and requires the same verdict, and requires silence on the behaviour-preserving patches under equivalents/ (over 300, most of them written by independent sub-agents).'
